@@ -1,4 +1,4 @@
 CONSTANTS Mode = "b58"  MaxLen = 6  MaxText = 4  LongZ = 8  LongN = 40  NPay = 0  Rich = FALSE  NPat = 2  NRnd = 0
 SPECIFICATION Spec
-INVARIANTS Guarantee ValidBasesDecode
+INVARIANTS Guarantee ValidBasesDecode LongFormAgrees
 CHECK_DEADLOCK FALSE
